@@ -404,6 +404,7 @@ fn parse_err_class(msg: &str, text: &str) -> String {
     const KW: &[&str] = &["not", "load", "br", "call", "revert", "nop", "jmp_mem", "retd", "mem_clear_val", "state_preload", "read_register"];
     if t.contains(" = config ") { "config_v0".into() }
     else if t.contains("const slice 0x") { "raw_slice_const".into() }
+    else if t.contains("; 0] []") { "empty_array_const".into() }
     else if t.starts_with("library") { "library_kind".into() }
     else if t.starts_with("wide ") { "wide_op".into() }
     else if t.ends_with("):") && KW.iter().any(|k| t.starts_with(k)) { "keyword_label".into() }
@@ -651,7 +652,10 @@ fn run_modules(a: &Args, r: &mut Rng, out: &mut dyn Write) -> usize {
     let mut pool = FrontendPool::default();
     let seed = seed_from_env();
     let n_e2e = if thorough { 40 } else { 6 };
-    let e2e = sample_e2e(r, n_e2e);
+    let mut e2e = sample_e2e(r, n_e2e);
+    // pinned first: the program whose initial IR carries an empty array constant (known finding C05-empty-array-const)
+    let pinned = std::path::PathBuf::from("/repo/test/src/e2e_vm_tests/test_programs/should_pass/language/enum_zero_sized_variants");
+    if pinned.is_dir() { e2e.retain(|p| *p != pinned); e2e.insert(0, pinned); }
     let mut gi = 0usize;
     let mut ei = 0usize;
     let t0 = std::time::Instant::now();
